@@ -1138,20 +1138,6 @@ func fltCaseSx(c fltCase, ents []fltEnt) string {
 	return L("filters", histCaseSx(c.Feat, c.Ops), c.Res, pit, L(es...), c.F.sx())
 }
 
-func sxText(s *Sx) string {
-	if !s.IsLst {
-		if s.Str {
-			return Q(s.Atom)
-		}
-		return s.Atom
-	}
-	xs := make([]string, len(s.List))
-	for i, k := range s.List {
-		xs[i] = sxText(k)
-	}
-	return L(xs...)
-}
-
 func fltCheck(out *Out, hr *HistRun, store *ledgerstore.Store, c fltCase, seen map[string]bool) {
 	ents, err := fltReadEntities(hr, c.Res, c.PIT)
 	if err != nil {
